@@ -108,7 +108,7 @@ func summarize(wire []byte) (string, bool) {
 
 // txImpl: `tx <psize> <chan> <pktnr0> <op>…`; ops: q:<payload> QueuePackage, f SendRemainingPackets,
 // s:<payload> SendPackage, ps:<n> packet size (between messages), ht:<n> CurrentHeaderType, rs Channel.Reset
-// (the message queued so far is abandoned).
+// (the message queued so far is abandoned), fc SendRemainingPackets with a cancelled context (fails, abandons).
 // Answer: per op the packets written to the transport during that op, then the tx queue state,
 // then ` # <oracle verdict>`.
 func txImpl(line string) string {
@@ -172,6 +172,36 @@ func txImpl(line string) string {
 			}
 		case "f":
 			e = ch.SendRemainingPackets(ctx)
+		case "fc":
+			// SendRemainingPackets with a cancelled context: nothing is written, the call fails (when there is
+			// anything to send) and — like every flush — ends in Reset: the message is abandoned, the next one
+			// starts from scratch
+			if chanId > 0 {
+				for w := msgWire; len(w) >= 8; {
+					l := int(binary.BigEndian.Uint16(w[2:4]))
+					if l < 8 || l > len(w) {
+						break
+					}
+					curNr = (curNr + 1) % 256
+					w = w[l:]
+				}
+			}
+			cctx, cancel := context.WithCancel(context.Background())
+			cancel()
+			e = ch.SendRemainingPackets(cctx)
+			w := cc.take()
+			sum, _ := summarize(w)
+			if e != nil {
+				sum = "err:" + sum
+			}
+			if len(w) != 0 && verdict == "" {
+				verdict = "a send with a cancelled context writes nothing"
+			}
+			outs = append(outs, sum)
+			msgPayload, msgWire = nil, nil
+			msgStartNr = curNr
+			hdrType = int(tds.TDS_BUF_NORMAL)
+			continue
 		case "rs":
 			// Channel.Reset: the message queued so far is abandoned (packets already on the wire stay there);
 			// the next message starts from scratch — nothing of the abandoned one is left behind
@@ -446,7 +476,7 @@ func init() {
 				if rng.Intn(3) == 0 {
 					part += body * (1 + rng.Intn(2)) // full packets of the abandoned message are already on the wire
 				}
-				toks = append(toks, fmt.Sprintf("q:g:%d:%d", part, rng.Intn(256)), "rs")
+				toks = append(toks, fmt.Sprintf("q:g:%d:%d", part, rng.Intn(256)), []string{"rs", "fc", "fc"}[rng.Intn(3)])
 				for m := 0; m < 1+rng.Intn(2); m++ {
 					toks = append(toks, genMessage(rng, ps, []int{1, 7, body - 1, body, body + 1, 2*body + 3}[rng.Intn(6)])...)
 				}
